@@ -28,10 +28,10 @@ import (
 
 const (
 	denom       = "stake"
-	verifModule = "verifmod"  // test double: a module that owns request contexts
-	halfModule  = "halfmod"   // test double: a module that registered only a response callback
-	modSvcOwner = "verifsvc"  // test double: a module that reserves a service name
-	modSvcName  = "modsvc"    // name of the module-reserved service
+	verifModule = "verifmod" // test double: a module that owns request contexts
+	halfModule  = "halfmod"  // test double: a module that registered only a response callback
+	modSvcOwner = "verifsvc" // test double: a module that reserves a service name
+	modSvcName  = "modsvc"   // name of the module-reserved service
 	startHeight = int64(10)
 )
 
@@ -63,10 +63,10 @@ const (
 
 // App bundles one simapp instance with the doubles registered on its keeper.
 type App struct {
-	app     *simapp.SimApp
-	k       keeper.Keeper
-	handler sdk.Handler
-	baseCtx sdk.Context
+	app            *simapp.SimApp
+	k              keeper.Keeper
+	handler        sdk.Handler
+	baseCtx        sdk.Context
 	modSvcProvider sdk.AccAddress
 
 	// mutable per-history hooks used by the registered callbacks
@@ -153,19 +153,19 @@ type Actor struct {
 
 // World is one history being executed.
 type World struct {
-	a       *App
-	ctx     sdk.Context // history branch
-	height  int64
-	now     time.Time
-	txSeq   uint64
-	lastTx  []byte
-	lastIdx int64
-	params  types.Params
-	cbLog   []CallbackRec
-	modSvcBehaviour ModSvcBehaviour
-	hasModSvc bool
-	stateCbKill bool // the verifmod double kills a context from inside its state callback
-	viaApp bool      // end-of-block through the application's module manager
+	a                 *App
+	ctx               sdk.Context // history branch
+	height            int64
+	now               time.Time
+	txSeq             uint64
+	lastTx            []byte
+	lastIdx           int64
+	params            types.Params
+	cbLog             []CallbackRec
+	modSvcBehaviour   ModSvcBehaviour
+	hasModSvc         bool
+	stateCbKill       bool // the verifmod double kills a context from inside its state callback
+	viaApp            bool // end-of-block through the application's module manager
 	stateCbKillOthers bool // the double also kills its other contexts from inside the state callback
 
 	tracked    map[string]string // addr hex -> name, accounts whose balance is observed
@@ -254,7 +254,9 @@ func (w *World) Fund(name string, addr sdk.AccAddress, amt sdk.Int) {
 
 // InstallModuleService writes the module-reserved service definition and its
 // zero-deposit binding directly, as a host chain does at genesis (cf. oracle-price).
-func (w *World) InstallModuleService(pricing string) {
+func (w *World) InstallModuleService(pricing string) { w.InstallModuleServiceQoS(pricing, 1) }
+
+func (w *World) InstallModuleServiceQoS(pricing string, qos uint64) {
 	k := w.a.k
 	def := types.ServiceDefinition{
 		Name: modSvcName, Description: "module service", Tags: []string{"mod"},
@@ -264,7 +266,7 @@ func (w *World) InstallModuleService(pricing string) {
 	b := types.ServiceBinding{
 		ServiceName: modSvcName, Provider: w.a.modSvcProvider,
 		Deposit: sdk.NewCoins(sdk.NewCoin(denom, sdk.NewInt(0))),
-		Pricing: pricing, QoS: 1, Options: `{}`, Available: true, DisabledTime: time.Time{}, Owner: w.a.modSvcProvider,
+		Pricing: pricing, QoS: qos, Options: `{}`, Available: true, DisabledTime: time.Time{}, Owner: w.a.modSvcProvider,
 	}
 	must(k.SetServiceBindingForGenesis(w.ctx, b))
 	w.Track("modsvc", w.a.modSvcProvider)
@@ -278,7 +280,7 @@ func (w *World) curCtx() sdk.Context {
 // StepResult is what the driver observed around one step.
 type StepResult struct {
 	OK        bool          `json:"ok"`
-	Rejected  bool          `json:"rejected,omitempty"`  // ValidateBasic rejected (handler not run)
+	Rejected  bool          `json:"rejected,omitempty"` // ValidateBasic rejected (handler not run)
 	Err       string        `json:"err,omitempty"`
 	ErrCode   string        `json:"err_code,omitempty"`
 	Panic     string        `json:"panic,omitempty"`
